@@ -83,7 +83,14 @@ Definition in_strs (k : str) (l : list str) : bool := existsb (str_eqb k) l.
 Definition filter_headers (known : list str) (hs : list (str * str)) : list (str * str) :=
   filter (fun kv => in_strs (fst kv) known || negb (in_strs (lower_ascii (fst kv)) excluded_lower)) hs.
 
-Definition header_line (kv : str * str) : str := fst kv ++ [58; SP] ++ snd kv.
+(* `Name: value`, or `Name;` for an empty value (curl's syntax for sending a header without a value) *)
+Definition header_line (kv : str * str) : str :=
+  match snd kv with
+  | [] => fst kv ++ [59]
+  | _ => fst kv ++ [58; SP] ++ snd kv
+  end.
+(* before the repair every header was printed as `Name: value` (regression sentinel) *)
+Definition header_line_prefix (kv : str * str) : str := fst kv ++ [58; SP] ++ snd kv.
 
 Definition body_words (b : option str) : list str :=
   match b with
@@ -110,6 +117,13 @@ Definition generate (known : list str) (r : req) : str :=
   ++ (if verify r then [] else [SP;45;45;105;110;115;101;99;117;114;101])
   ++ [SP] ++ quote (url r).
 
+Definition argv_of_prefix (known : list str) (r : req) : list str :=
+  [[99;117;114;108]; [45;88]; method r]
+  ++ flat_map (fun kv => [[45;72]; header_line_prefix kv]) (filter_headers known (headers r))
+  ++ body_words (body r)
+  ++ (if verify r then [] else [[45;45;105;110;115;101;99;117;114;101]])
+  ++ [url r].
+
 (* ---------- semantics of the curl options used ----------
    What a server receives, restricted to what the property compares:
    method, URL, body and the non-automatic headers. *)
@@ -126,6 +140,12 @@ Fixpoint split_colon (s : str) (acc : str) : option (str * str) :=
 (* -H Name: value: sent unless the value is blank (then the header is
    removed / not sent); leading blanks of the value are dropped by the peer.
    A line without a colon is ignored (the Name; form is never generated). *)
+Fixpoint split_semicolon (s : str) (acc : str) : option (str * str) :=
+  match s with
+  | [] => None
+  | c :: s' => if N.eqb c 59 then Some (rev acc, s') else split_semicolon s' (c :: acc)
+  end.
+
 Definition curl_header (h : str) : option (str * str) :=
   match split_colon h [] with
   | Some (k, v) =>
@@ -134,7 +154,16 @@ Definition curl_header (h : str) : option (str * str) :=
       | [] => None
       | v' => Some (k, v')
       end end
-  | None => None
+  | None =>
+      (* no colon: `Name;` (first semicolon, nothing but blanks after it) sends the header with an empty value *)
+      match split_semicolon h [] with
+      | Some (k, rest) =>
+          match k, strip_left [32;9;10;11;12;13] rest with
+          | _ :: _, [] => Some (k, [])
+          | _, _ => None
+          end
+      | None => None
+      end
   end.
 
 Inductive curl_res := CurlSends (s : sent) | CurlReadsFile (path : str) | CurlBadArgs.
@@ -182,11 +211,16 @@ Definition no_nul (s : str) : bool := forallb (fun c => negb (N.eqb c 0)) s.
 Definition safe_word (s : str) : bool := match s with [] => false | _ => forallb safe_char s end.
 Definition no_colon (s : str) : bool := forallb (fun c => negb (N.eqb c 58)) s.
 
+(* a value is fine if it is empty or has a non-blank character (a non-empty all-blank value still makes curl drop the header) *)
 Definition header_value_nonblank (kv : str * str) : bool :=
-  match strip_left [32;9;10;11;12;13] (snd kv) with [] => false | _ => true end.
+  match snd kv with
+  | [] => true
+  | _ => match strip_left [32;9;10;11;12;13] (snd kv) with [] => false | _ => true end
+  end.
+Definition no_semicolon (s : str) : bool := forallb (fun c => negb (N.eqb c 59)) s.
 Definition header_name_ok (kv : str * str) : bool :=
-  match fst kv with [] => false | _ => no_colon (fst kv) end.
-Definition no_empty_header_value (known : list str) (r : req) : bool :=
+  match fst kv with [] => false | _ => no_colon (fst kv) && no_semicolon (fst kv) end.
+Definition header_values_ok (known : list str) (r : req) : bool :=
   forallb header_value_nonblank (filter_headers known (headers r)).
 Definition header_names_ok (known : list str) (r : req) : bool :=
   forallb header_name_ok (filter_headers known (headers r)).
